@@ -52,6 +52,18 @@ Proof.
   exists m. split; auto. rewrite !app_length. lia.
 Qed.
 
+Lemma blen_0 p : blen p = 0 -> p = [].
+Proof. destruct p as [|c p]; auto. simpl. pose proof (width_pos c). lia. Qed.
+
+Lemma slice_some_lt s a b : bnd s a -> bnd s b -> 1 <= a -> a <= b -> exists t, slice s a b = Some t /\ length t < length s.
+Proof.
+  intros Ha Hb H1 Hab. destruct (bnd_split s a b Ha Hb Hab) as (p & m & q & Es & Lp & Lm).
+  unfold slice. replace (a <=? b) with true by (symmetry; apply Nat.leb_le; lia).
+  subst s a. rewrite drop_bytes_app. rewrite <- Lm. rewrite take_bytes_app.
+  exists m. split; auto. rewrite !app_length.
+  destruct p as [|c p]; [simpl in H1; lia|]. simpl. lia.
+Qed.
+
 Section Safety.
 Variables (uni_numeric : char -> bool) (has_elem : str -> bool) (has_iso : str -> N -> bool).
 Variable s : str.
@@ -67,13 +79,26 @@ Definition Inv (c : cfg) (i : nat) : Prop :=
   | IsotopeToCount => B (es c) /\ B (ee c) /\ es c <= ee c /\ B (is_ c) /\ B (ie c) /\ is_ c <= ie c /\ ie c <= i
   | Count => B (es c) /\ B (ee c) /\ es c <= ee c /\ B (cs c) /\ cs c <= i /\
              (ie c = is_ c \/ (B (is_ c) /\ B (ie c) /\ is_ c <= ie c))
-  | Group => iso_clean c /\ B (gs c) /\ gs c <= i
-  | GroupToGroupCount => iso_clean c /\ B (gs c) /\ B (ge c) /\ gs c <= ge c
-  | GroupCount => iso_clean c /\ B (gs c) /\ B (ge c) /\ gs c <= ge c /\ B (gcs c) /\ gcs c <= i
+  | Group => iso_clean c /\ B (gs c) /\ gs c <= i /\ 1 <= gs c
+  | GroupToGroupCount => iso_clean c /\ B (gs c) /\ B (ge c) /\ gs c <= ge c /\ 1 <= gs c
+  | GroupCount => iso_clean c /\ B (gs c) /\ B (ge c) /\ gs c <= ge c /\ 1 <= gs c /\ B (gcs c) /\ gcs c <= i
   end.
 
 Variable parse_rec : str -> res comp.
-Hypothesis rec_safe : forall t, length t <= length s -> parse_rec t <> Panic.
+Hypothesis rec_safe : forall t, length t < length s -> parse_rec t <> Panic.
+
+Lemma sl_ok_lt a b : B a -> B b -> 1 <= a -> a <= b -> exists t, sl s a b = Ok t /\ length t < length s.
+Proof.
+  intros Ha Hb H1 Hab. destruct (slice_some_lt s a b Ha Hb H1 Hab) as (t & E & L).
+  exists t. unfold sl. rewrite E. auto.
+Qed.
+
+Ltac use_sl_lt :=
+  match goal with
+  | |- context [sl s ?a ?b] =>
+      let t := fresh "t" in let E := fresh "E" in let L := fresh "L" in
+      destruct (sl_ok_lt a b) as (t & E & L); [ (simpl; intuition (auto; try lia)) .. | rewrite E; simpl ]
+  end.
 
 Lemma sl_ok a b : B a -> B b -> a <= b -> exists t, sl s a b = Ok t /\ length t <= length s.
 Proof.
@@ -143,17 +168,76 @@ Proof.
     + destruct (ch =? LP)%N; fin.
   - (* GroupToGroupCount *)
     destruct (negb (is_numeric uni_numeric ch)) eqn:Nm; [|fin].
-    unfold take_group; simpl. use_sl.
+    unfold take_group; simpl. use_sl_lt.
     pose proof (rec_safe t L) as RS. destruct (parse_rec t); simpl; [|fin|congruence].
     unfold start_item; simpl.
     destruct (ch =? LP)%N eqn:P; [ascii_w P; fin|]. destruct (is_upper ch); fin.
   - (* GroupCount *)
     destruct (negb (is_numeric uni_numeric ch)) eqn:Nm; [|fin].
-    unfold take_group; simpl. use_sl.
+    unfold take_group; simpl. use_sl_lt.
     pose proof (rec_safe t L) as RS. destruct (parse_rec t); simpl; [|fin|congruence].
     unfold take_gcount; simpl. use_sl.
     destruct (parse_i32 t0); simpl; [|fin].
     unfold start_item; simpl.
     destruct (ch =? LP)%N eqn:P; [ascii_w P; fin|]. destruct (is_upper ch); fin.
 Qed.
+
+Lemma bnd_end : B (blen s).
+Proof. exists s, []. rewrite app_nil_r. auto. Qed.
+
+Lemma finish_safe acc c : Inv c (blen s) ->
+  finish has_elem has_iso parse_rec s acc c <> Panic.
+Proof.
+  intros HI. pose proof bnd_end as Be.
+  unfold finish. destruct (state c) eqn:St; unfold Inv in HI; rewrite St in HI; try discriminate.
+  - (* Element *)
+    unfold get_elem; simpl. use_sl. destruct (has_elem t); simpl; discriminate.
+  - (* IsotopeToCount *)
+    unfold get_elem; simpl. use_sl. destruct (has_elem t); simpl; [|discriminate].
+    unfold parse_isotope_slice; simpl. use_sl. destruct (parse_u16 t0); simpl; [|discriminate].
+    unfold check_iso. destruct (_ || _); simpl; discriminate.
+  - (* Count *)
+    unfold take_count; simpl. use_sl. destruct (parse_i32 t); simpl; [|discriminate].
+    destruct (Nat.eqb (ie c) (is_ c)) eqn:EQ; simpl.
+    + unfold get_elem; simpl. use_sl. destruct (has_elem t0); simpl; discriminate.
+    + apply Nat.eqb_neq in EQ. unfold parse_isotope_slice; simpl. use_sl.
+      destruct (parse_u16 t0); simpl; [|discriminate].
+      unfold get_elem; simpl. use_sl. destruct (has_elem t1); simpl; [|discriminate].
+      unfold check_iso. destruct (_ || _); simpl; discriminate.
+  - (* GroupToGroupCount *)
+    unfold take_group; simpl. use_sl_lt.
+    pose proof (rec_safe t L) as RS. destruct (parse_rec t); simpl; [discriminate|discriminate|congruence].
+  - (* GroupCount *)
+    unfold take_group; simpl. use_sl_lt.
+    pose proof (rec_safe t L) as RS. destruct (parse_rec t); simpl; [|discriminate|congruence].
+    unfold take_gcount; simpl. use_sl. destruct (parse_i32 t0); simpl; discriminate.
+Qed.
+
+Lemma run_safe suf : forall pre acc c, s = pre ++ suf -> Inv c (blen pre) ->
+  run uni_numeric has_elem has_iso parse_rec s acc c (indices suf (blen pre)) <> Panic.
+Proof.
+  induction suf as [|ch suf IH]; intros pre acc c Es HI; simpl.
+  - rewrite app_nil_r in Es. subst pre. apply finish_safe; auto.
+  - assert (Bi : B (blen pre)) by (exists pre, (ch :: suf); auto).
+    assert (Bi' : B (blen pre + width ch)).
+    { exists (pre ++ [ch]), suf. split. rewrite <- app_assoc; auto. rewrite blen_app; simpl; lia. }
+    pose proof (step_safe acc c (blen pre) ch HI Bi Bi') as G.
+    destruct (step uni_numeric has_elem has_iso parse_rec s acc c (blen pre) ch) as [[acc' c']|e|]; simpl in *; try discriminate; [|contradiction].
+    replace (blen pre + width ch) with (blen (pre ++ [ch])) in * by (rewrite blen_app; simpl; lia).
+    apply IH; auto. rewrite <- app_assoc; auto.
+Qed.
 End Safety.
+
+Theorem parse_safe uni_numeric has_elem has_iso : forall fuel s, length s < fuel ->
+  parse uni_numeric has_elem has_iso fuel s <> Panic.
+Proof.
+  induction fuel as [|f IH]; intros s L; [lia|]. simpl.
+  apply (run_safe uni_numeric has_elem has_iso s (parse uni_numeric has_elem has_iso f)) with (pre := []) (suf := s); auto.
+  - intros t Lt. apply IH. lia.
+  - unfold Inv, cfg0, iso_clean; simpl. auto.
+Qed.
+
+Corollary parse_formula_no_panic uni_numeric has_elem has_iso s :
+  parse_formula uni_numeric has_elem has_iso s <> Panic.
+Proof. unfold parse_formula. apply parse_safe. lia. Qed.
+Print Assumptions parse_formula_no_panic.
